@@ -1,7 +1,8 @@
 (** Single entry point of the extracted model: name of the case kind -> function. *)
 From Coq Require Import List NArith ZArith String.
 From Tongo Require Import Lib.Bits Lib.Sx Harness.H06 Harness.H07 Harness.H01 Harness.H18
-  Harness.H05 Harness.H13 Harness.H19 Harness.H12 Harness.H03 Harness.H04.
+  Harness.H05 Harness.H13 Harness.H19 Harness.H12 Harness.H03 Harness.H04
+  Harness.H11 Harness.H16 Harness.H17 Harness.H20.
 Import ListNotations.
 Local Open Scope string_scope.
 
@@ -42,4 +43,39 @@ Definition run (name : string) (a : sx) : sx :=
   else if is "c03.stack" then H03.run_stack a
   else if is "c04.spec" then H04.run_spec a
   else if is "c04.extmsg" then H04.run_extmsg a
+  else if is "c11.marshal" then H11.run_marshal a
+  else if is "c11.parse" then H11.run_parse a
+  else if is "c11.recv" then H11.run_recv a
+  else if is "c11.session" then H11.run_session a
+  else if is "c16.msg" then H16.run_msg a
+  else if is "c16.tx" then H16.run_tx a
+  else if is "c17.crc16" then H17.run_crc16 a
+  else if is "c17.human" then H17.run_human a
+  else if is "c17.parsehuman" then H17.run_parse_human a
+  else if is "c17.parseaddr" then H17.run_parse_address a
+  else if is "c17.raw" then H17.run_raw a
+  else if is "c17.parseraw" then H17.run_parse_raw a
+  else if is "c17.parseacc" then H17.run_parse_account a
+  else if is "c17.tl" then H17.run_tl a
+  else if is "c17.untl" then H17.run_untl a
+  else if is "c17.shard.parse" then H17.run_shard_parse a
+  else if is "c17.shard.match" then H17.run_shard_match a
+  else if is "c17.shard.matchblock" then H17.run_shard_match_block a
+  else if is "c17.shard.child" then H17.run_shard_child a
+  else if is "c17.shard.parent" then H17.run_shard_parent a
+  else if is "c17.shard.ident" then H17.run_shard_ident a
+  else if is "c17.parents" then H17.run_parents a
+  else if is "c17.adnl" then H17.run_adnl a
+  else if is "c17.parseadnl" then H17.run_parse_adnl a
+  else if is "c17.tlb" then H17.run_tlb a
+  else if is "c17.tlbany" then H17.run_tlb_any a
+  else if is "c17.untlb" then H17.run_untlb a
+  else if is "c17.fromtlb" then H17.run_from_tlb a
+  else if is "c17.json" then H17.run_json a
+  else if is "c17.unjson" then H17.run_unjson a
+  else if is "c20.print" then H20.run_print a
+  else if is "c20.parse" then H20.run_parse a
+  else if is "c20.method" then H20.run_method a
+  else if is "c20.valid" then H20.run_valid a
+  else if is "c20.unquote" then H20.run_unquote a
   else sx_err "unknown case kind".
